@@ -16,6 +16,7 @@ from .util import (
     list_search_on_param,
     may_refuse_map,
     raised_class,
+    stands_for_params,
     stmt_index,
     walk_node_exprs,
 )
@@ -76,13 +77,15 @@ def _refusal_at(ctx: Ctx, f: Func, n: N, refuse=None) -> Optional[Tuple[str, str
         return key, f"{e.field} at {e.origin}:{e.line} (`{e.text}`) reached via " + " -> ".join(e.chain)
     a = n.ast
     params = sorted(set(f.top.param_names()) - {f.self_name})
-    used = sorted({x.id for x in ast.walk(a) if isinstance(x, ast.Name)} & set(params)) if a is not None else []
+    # (locals that merely carry a parameter - `pos = before` - count as that parameter: renaming or normalising an
+    # argument into a local must not rename the finding)
+    used = sorted({p_ for x in ast.walk(a) if isinstance(x, ast.Name) for p_ in stands_for_params(ctx, f, x.id)}) if a is not None else []
     if isinstance(a, ast.Assert):
         return f"assert on argument {'/'.join(used)}", e.field
     if isinstance(a, ast.Raise):
         # distinguish several raises of one class by the parameters their guard mentions
         p = ctx.model.parent_of(a)
-        g = sorted({x.id for x in ast.walk(p.test) if isinstance(x, ast.Name)} & set(params)) if isinstance(p, ast.If) else []
+        g = sorted({p_ for x in ast.walk(p.test) if isinstance(x, ast.Name) for p_ in stands_for_params(ctx, f, x.id)}) if isinstance(p, ast.If) else []
         return f"{e.field}" + (f" on {'/'.join(g)}" if g else ""), e.field
     return f"failing search for argument {'/'.join(used)}", e.field
 
